@@ -6,6 +6,7 @@ import (
 	"time"
 
 	"github.com/ThreeDotsLabs/watermill"
+	"github.com/ThreeDotsLabs/watermill/internal/verifhook"
 	"github.com/ThreeDotsLabs/watermill/message"
 	"github.com/hashicorp/go-multierror"
 	"github.com/pkg/errors"
@@ -212,6 +213,7 @@ func (p PubSubBackend[Result]) ListenForNotifications(
 					}
 				}
 				if reply != nil {
+					verifhook.Point("requestreply.listen.before_send", string(params.OperationID))
 					select {
 					case replyChan <- *reply:
 					case <-ctx.Done():
